@@ -225,3 +225,8 @@ func (c *Ctx) mapLiteralKeys(pkgPath, name string) (map[string]bool, string, boo
 	}
 	return nil, "", false
 }
+
+func isMapType(t types.Type) bool {
+	_, ok := t.Underlying().(*types.Map)
+	return ok
+}
